@@ -34,11 +34,12 @@ const (
 
 // State of one guarded run.
 type State struct {
-	Budget   int64
-	MaxElems int // arrays larger than this are "unbounded allocations"
-	steps    int64
-	reason   atomic.Value // string
-	Stopped  int32
+	Budget      int64
+	MaxElems    int  // arrays larger than this are "unbounded allocations"
+	NoCycleStop bool // do not stop before a cyclic container is created (sacrificial processes only)
+	steps       int64
+	reason      atomic.Value // string
+	Stopped     int32
 }
 
 // Reason returns why the run was stopped ("" if it was not).
@@ -128,7 +129,7 @@ func (s *State) probe(v *tengo.VM) {
 			if nargs >= 4 {
 				arr := v.VerifStackAt(sp - nargs)
 				for i := 3; i < nargs; i++ {
-					if s.mayCycle(arr, v.VerifStackAt(sp-nargs+i)) {
+					if !s.NoCycleStop && s.mayCycle(arr, v.VerifStackAt(sp-nargs+i)) {
 						s.stop(v, "cyclic")
 						return
 					}
@@ -176,7 +177,7 @@ func seqLen(o tengo.Object) int {
 }
 
 func (s *State) checkStore(v *tengo.VM, root, val tengo.Object) {
-	if s.mayCycle(root, val) {
+	if !s.NoCycleStop && s.mayCycle(root, val) {
 		s.stop(v, "cyclic")
 	}
 }
